@@ -20,9 +20,24 @@ def win(skel, region, w0, nwin, stride, wlen, om, timeout=1700):
                      'step bound 1.5M IR instructions per path, call depth 64' % (skel, nwin, w0, stride, REG[region], wlen, MODES[om]))
 
 
+def mixed_pages(tier):
+    """Spec-valid chunks of the independent reference writer whose data pages switch between PLAIN and dictionary encoding
+    (carquet's own writer never emits such chunks, so the window skeletons above cannot reach the page-to-page state of the
+    zero-copy / decoded-buffer bookkeeping). The obligations are C06's (harness c06_interop.c); what C04 takes from them is
+    the engine's memory-safety, termination and leak verdict on every path."""
+    import importlib
+    c06 = importlib.import_module('props.C06')
+    out = []
+    for ob in c06.obligations(tier):
+        if ob.name.startswith('read/') and ('PLAIN+' in ob.name or 'DICT+' in ob.name):
+            ob.name = 'mixed-pages/' + ob.name[5:]
+            out.append(ob)
+    return out
+
+
 def obligations(tier):
     q = tier == 'quick'
-    o = []
+    o = mixed_pages(tier)
     if q:
         # the quick tier must finish well inside 15 minutes: every byte position of skeleton 0's footer (24 obligations x 8
         # positions), the first 48 bytes of the data region (page header + body of the first pages), strided samples for the
